@@ -532,7 +532,26 @@ def enumerated(tier, seed):
         blk += [D("c%d" % k, ("index", V("keep"), I(k)))]
     for k in (0, 0, 1, 2, 3, 4, 4, 5, 6, 7, 8, 9, 10, 10, 11, 1, 5, 7):
         blk.append(("print", ("call", V("c%d" % k), [])))
-    return [{"stmts": blk, "labels": ["fixed:closures-over-block-locals-called-after-the-block"], "nt": True},
+    # a closure that uses its captured variable ONLY inside one arm of an if / else-if / else chain (each arm in turn; read, modify,
+    # op-assignment), called while the owner is alive and after the factory that owns the variable has returned
+    arms = []
+    for arm in ("if", "else-if", "second-else-if", "else"):
+        for use in ("read", "modify", "opassign"):
+            stmt = {"read": ("return", ("bin", "*", V("cx"), I(10))), "modify": D("cx", ("bin", "+", V("cx"), I(1)), ("modify",)), "opassign": ("opassign", V("cx"), "+=", I(1))}[use]
+            other = lambda k: [("return", I(0 - k))]
+            chain = {"if": ("if", ("bin", "==", V("sel"), I(2)), [stmt], ("if", ("bin", "==", V("sel"), I(1)), other(1), other(2))),
+                     "else-if": ("if", ("bin", "==", V("sel"), I(1)), other(1), ("if", ("bin", "==", V("sel"), I(2)), [stmt], other(2))),
+                     "second-else-if": ("if", ("bin", "==", V("sel"), I(1)), other(1), ("if", ("bin", "==", V("sel"), I(3)), other(3), ("if", ("bin", "==", V("sel"), I(2)), [stmt], other(2)))),
+                     "else": ("if", ("bin", "==", V("sel"), I(1)), other(1), ("if", ("bin", "==", V("sel"), I(3)), other(3), [stmt]))}[arm]
+            nm = "f_%s_%s" % (arm.replace("-", ""), use)
+            arms.append(D(nm, ("call", V("mkarm"), [])) if False else D(nm, ("fn", [("sel", "int")], "int", [chain, ("return", I(7))])))
+            arms += [("print", ("call", V(nm), [I(2)])), ("print", V("cx")), ("print", ("call", V(nm), [I(1)]))]
+    armp = [D("cx", I(3))] + arms
+    fac = [D("mkf", ("fn", [], ("fn", ["int"], "int"), [D("cy", I(5)),
+                     ("return", ("fn", [("sel", "int")], "int", [("if", ("bin", "==", V("sel"), I(1)), [("return", I(0 - 1))], ("if", ("bin", "==", V("sel"), I(2)), [D("cy", ("bin", "+", V("cy"), I(1)), ("modify",)), ("return", V("cy"))], [("return", I(0 - 2))])), ("return", I(7))]))])),
+           D("ff", ("call", V("mkf"), [])), ("print", ("call", V("ff"), [I(2)])), ("print", ("call", V("ff"), [I(2)])), ("print", ("call", V("ff"), [I(1)]))]
+    return [{"stmts": armp + fac, "labels": ["fixed:capture-used-only-inside-one-arm-of-an-if-chain"], "nt": True},
+            {"stmts": blk, "labels": ["fixed:closures-over-block-locals-called-after-the-block"], "nt": True},
             {"stmts": late, "labels": ["fixed:captured-variable-exported-afterwards"], "nt": True},
             {"stmts": rec, "labels": ["fixed:closure-that-calls-itself-then-uses-its-captures"], "nt": True},
             {"stmts": pm, "labels": ["fixed:parameter-named-like-the-modified-variable"], "nt": True},
